@@ -152,6 +152,8 @@ pub fn batch_process(b: &Batch, run: &dyn Fn(&mut Universe, &Batch, &mut Stats))
     // shared progress word: the run index the child is working on
     let page = unsafe { libc::mmap(std::ptr::null_mut(), 4096, libc::PROT_READ | libc::PROT_WRITE, libc::MAP_SHARED | libc::MAP_ANONYMOUS, -1, 0) } as *mut u64;
     let mut lo = b.lo;
+    // a universe whose warm-up hangs (a starved machine) is booted again, twice at most
+    let mut warmup_retries = 0;
     while lo < b.hi {
         let hi = if b.fresh { lo + 1 } else { b.hi };
         unsafe { *page = lo };
@@ -169,6 +171,9 @@ pub fn batch_process(b: &Batch, run: &dyn Fn(&mut Universe, &Batch, &mut Stats))
                 }
                 Err(e) => st.harness_errors.push(format!("universe boot: {e}")),
             }
+            if warmup_retries < 2 && st.evaluations == 0 && st.violations.is_empty() && !st.harness_errors.is_empty() && st.harness_errors.iter().all(|e| e.starts_with("warm-up:")) {
+                unsafe { libc::_exit(77) };
+            }
             let line = format!("{}\n", st.to_json());
             let mut off = 0;
             while off < line.len() {
@@ -182,6 +187,10 @@ pub fn batch_process(b: &Batch, run: &dyn Fn(&mut Universe, &Batch, &mut Stats))
         }
         let mut status = 0;
         unsafe { libc::waitpid(pid, &mut status, 0) };
+        if libc::WIFEXITED(status) && libc::WEXITSTATUS(status) == 77 {
+            warmup_retries += 1;
+            continue;
+        }
         if libc::WIFSIGNALED(status) || (libc::WIFEXITED(status) && libc::WEXITSTATUS(status) != 0) {
             let at = unsafe { *page };
             let how = if libc::WIFSIGNALED(status) { format!("signal {}", libc::WTERMSIG(status)) } else { format!("exit {}", libc::WEXITSTATUS(status)) };
